@@ -180,8 +180,60 @@ func findCalls(fn *ssa.Function, name string, anon bool) []ssa.CallInstruction {
 // (directly, or a function literal it runs) does so exactly once, the loop logic lives there: the rules
 // analyse that helper, provided fn hands the helper's error result on unchanged (returns it, or returns
 // what a call of the module's join helper makes of it).
+// stepCall: an invocation of a step, directly (x.Run(...)) or through a thin wrapper of the package
+// (a closure or helper whose single block returns p.Run(...) for one of its parameters p).
+type stepCall struct {
+	c    ssa.CallInstruction
+	recv ssa.Value // the step value in the caller
+}
+
+func thinInvokeWrapper(g *ssa.Function, method string) (int, bool) {
+	if g == nil || len(g.Blocks) != 1 {
+		return 0, false
+	}
+	inv := findInvokes(g, method, false)
+	if len(inv) != 1 {
+		return 0, false
+	}
+	ret, ok := g.Blocks[0].Instrs[len(g.Blocks[0].Instrs)-1].(*ssa.Return)
+	if !ok || len(ret.Results) != 1 || ret.Results[0] != inv[0].Value() {
+		return 0, false
+	}
+	for i, p := range g.Params {
+		if inv[0].Common().Value == p {
+			return i, true
+		}
+	}
+	return 0, false
+}
+
+func stepCalls(fn *ssa.Function, method string) []stepCall {
+	var out []stepCall
+	for _, c := range callsIn(fn, false) {
+		if c.Common().IsInvoke() {
+			if c.Common().Method.Name() == method {
+				out = append(out, stepCall{c, c.Common().Value})
+			}
+			continue
+		}
+		var g *ssa.Function
+		if sc := c.Common().StaticCallee(); sc != nil {
+			g = sc
+		} else if mc, ok := c.Common().Value.(*ssa.MakeClosure); ok {
+			g, _ = mc.Fn.(*ssa.Function)
+		}
+		if g == nil || g == fn || rootFn(g).Pkg != fn.Pkg {
+			continue
+		}
+		if i, ok := thinInvokeWrapper(g, method); ok && i < len(c.Common().Args) {
+			out = append(out, stepCall{c, c.Common().Args[i]})
+		}
+	}
+	return out
+}
+
 func ownerOfInvoke(fn *ssa.Function, method string) *ssa.Function {
-	if len(findInvokes(fn, method, false)) > 0 {
+	if len(stepCalls(fn, method)) > 0 {
 		return fn
 	}
 	var owner *ssa.Function
@@ -569,12 +621,12 @@ func stepLoopRule(e *Env, rule, rel, name, method string) {
 		return
 	}
 	fn = ownerOfInvoke(fn, method)
-	inv := findInvokes(fn, method, false)
+	inv := stepCalls(fn, method)
 	if len(inv) != 1 {
 		r.Undecide(rule, key, fmt.Sprintf("%d invocations of %s, expected 1", len(inv), method))
 		return
 	}
-	c := inv[0]
+	c := inv[0].c
 	errv := errOf(c)
 	if errv == nil {
 		r.Violate(rule, key+"#result-used", "the step's error is discarded", nil, e.P.Pos(c.Pos()))
@@ -624,11 +676,9 @@ func c10RangeAll(e *Env, rule, rel, name string) {
 	// the invoked step is steps[i] with i walking the whole slice upwards from 0 (a range statement, or a
 	// counted loop i := 0; i < len(steps); i++), steps being the receiver's field (directly or via a local)
 	found := false
-	for _, c := range callsIn(fn, false) {
-		if !c.Common().IsInvoke() {
-			continue
-		}
-		ld, ok := c.Common().Value.(*ssa.UnOp)
+	for _, sc := range stepCalls(fn, "Run") {
+		c := sc.c
+		ld, ok := sc.recv.(*ssa.UnOp)
 		if !ok {
 			continue
 		}
